@@ -3,6 +3,7 @@ import OmplModel.Proofs.PlannerReport
 import OmplModel.Proofs.RRT
 import OmplModel.Proofs.RRTConnect
 import OmplModel.Proofs.RRTReal
+import OmplModel.Proofs.LazyPRM
 /-!
 # C01 — geometric planners only report solution paths that are real
 
@@ -481,6 +482,160 @@ theorem rrtconnect_path_checks (cfg : RRTConnect.Cfg S D) (hni : cfg.addIntermed
 
 end RRTConnect
 
+/-! ## L2c: LazyPRM (a roadmap planner; `boost::astar_search` is an oracle whose answers the model checks) -/
+
+section LazyPRM
+open OmplModel.LazyPRM (RInv Ext EitherWay RealPath)
+
+/-- the planner state in which `LazyPRM::solve` leaves its loop satisfies the invariant (helper for the theorems below) -/
+theorem lazyprm_solve_inv (cfg : LazyPRM.Cfg S D) (starts : Array S) (ptc : Nat) (evs : List (LazyPRM.Event S)) :
+    RInv cfg (LazyPRM.solve cfg starts ptc evs).rm ∧
+      (∀ v ∈ (LazyPRM.solve cfg starts ptc evs).startM, LazyPRM.isAlive (LazyPRM.solve cfg starts ptc evs).rm v = true ∧
+        ∃ s, (LazyPRM.solve cfg starts ptc evs).rm.states[v]? = some s ∧ LazyPRM.ValidStart cfg starts s) ∧
+      (∀ path c, (LazyPRM.solve cfg starts ptc evs).added = some (path, false, c) → RealPath cfg starts path) ∧
+      ((LazyPRM.solve cfg starts ptc evs).status.toBool = true →
+        ∃ path c, (LazyPRM.solve cfg starts ptc evs).added = some (path, false, c) ∧
+          (LazyPRM.solve cfg starts ptc evs).status = .exactSolution) ∧
+      ((LazyPRM.solve cfg starts ptc evs).status.toBool = false → (LazyPRM.solve cfg starts ptc evs).added = none) := by
+  unfold LazyPRM.solve
+  simp only
+  have hds := (drainStarts_spec cfg.bounds cfg.valid starts (starts.size + 1) {}).1
+  generalize drainStarts cfg.bounds cfg.valid starts (starts.size + 1) {} = ds at hds
+  have hvs : ∀ x ∈ ds.1, LazyPRM.ValidStart cfg starts x.2 := by
+    intro x hx
+    obtain ⟨hi, h1, h2, h3, _⟩ := hds x hx
+    exact ⟨x.1, hi, h1, h2, h3⟩
+  obtain ⟨s1, s2⟩ := LazyPRM.addStarts_spec cfg starts ds.1 {} [] (LazyPRM.empty_rinv cfg) hvs (fun v hv => by simp at hv)
+  generalize LazyPRM.addStarts cfg ds.1 {} [] = as at s1 s2
+  split
+  · exact ⟨s1, fun v hv => by simp at hv, fun _ _ h => by simp at h, fun h => by simp [Status.toBool] at h, fun _ => rfl⟩
+  · split
+    · exact ⟨s1, s2, fun _ _ h => by simp at h, fun h => by simp [Status.toBool] at h, fun _ => rfl⟩
+    · have hg := (goalOuter_spec cfg.bounds cfg.valid cfg.goalSample cfg.maxGoalSamples (ptc + 1)
+        ds.2.sampledGoalsCount (List.replicate ptc false)).2.2
+      generalize goalOuter cfg.bounds cfg.valid cfg.goalSample cfg.maxGoalSamples (ptc + 1)
+        ds.2.sampledGoalsCount (List.replicate ptc false) = g at hg
+      split
+      · exact ⟨s1, s2, fun _ _ h => by simp at h, fun h => by simp [Status.toBool] at h, fun _ => rfl⟩
+      · next x hx =>
+        obtain ⟨g1, g2, g3, _, _, g6⟩ := hg x hx
+        obtain ⟨a1, a2, a3, a4, a5, a6⟩ := LazyPRM.addMilestone_spec cfg as.1 x.2 s1
+        have hk := LazyPRM.addMilestone_keeps cfg _ as.1 x.2 s1 as.2 s2
+        generalize ham : LazyPRM.addMilestone cfg as.1 x.2 = am at a1 a2 a3 a4 a5 a6 hk
+        have hst0 : LazyPRM.StInv cfg starts (LazyPRM.initSt cfg am.1 as.2 am.2
+            (LazyPRM.solve.pisOf ds.2 g.2.1) g.2.2.length) := by
+          refine ⟨a1, hk, ?_, fun p hp => by simp [LazyPRM.initSt] at hp⟩
+          intro v hv
+          simp only [LazyPRM.initSt, List.mem_singleton] at hv
+          subst hv
+          refine ⟨a5, x.2, ?_, ⟨x.1, g6, g1.symm, g2, g3⟩⟩
+          show am.1.states[am.2]? = some x.2
+          rw [a4, a3, Array.getElem?_push]; simp
+        obtain ⟨l1, _⟩ := LazyPRM.loop_spec cfg starts (evs.length + 1) _ evs hst0
+        generalize LazyPRM.loop cfg (evs.length + 1) _ evs = r at l1
+        have hsm : r.1.startM = r.1.startM := rfl
+        split
+        · next path hbest =>
+          refine ⟨l1.rm, l1.startsOK, ?_, fun _ => ⟨path, _, rfl, rfl⟩, fun h => by simp [Status.toBool] at h⟩
+          intro p c hp
+          simp only [Option.some.injEq, Prod.mk.injEq] at hp
+          obtain ⟨rfl, _⟩ := hp
+          exact l1.best _ hbest
+        · exact ⟨l1.rm, l1.startsOK, fun _ _ h => by simp at h, fun h => by simp [Status.toBool] at h, fun _ => rfl⟩
+
+/-- **Roadmap invariant**, for every configuration, start set, termination count and event script (sampled states and
+oracle answers): edges connect vertices that are in the graph, the nearest-neighbour list holds only such vertices, a
+vertex marked VALID was answered valid by `isValid`, an edge marked VALID was answered valid by `checkMotion` for one of
+the two orders of its end states, and the start milestones are in the graph and carry filtered start states. -/
+theorem lazyprm_roadmap_inv (cfg : LazyPRM.Cfg S D) (starts : Array S) (ptc : Nat) (evs : List (LazyPRM.Event S)) :
+    RInv cfg (LazyPRM.solve cfg starts ptc evs).rm ∧
+      ∀ v ∈ (LazyPRM.solve cfg starts ptc evs).startM, LazyPRM.isAlive (LazyPRM.solve cfg starts ptc evs).rm v = true ∧
+        ∃ s, (LazyPRM.solve cfg starts ptc evs).rm.states[v]? = some s ∧ LazyPRM.ValidStart cfg starts s :=
+  ⟨(lazyprm_solve_inv cfg starts ptc evs).1, (lazyprm_solve_inv cfg starts ptc evs).2.1⟩
+
+/-- **Removed items never reappear**: every step of the planner — `addMilestone`, one `constructSolution` call (whatever
+vertex sequence the oracle hands it), a whole loop turn, the whole loop — extends the roadmap (`Ext`): every vertex keeps
+its number and state, and a vertex that has left the graph stays out; and the roadmap invariant is kept. -/
+theorem lazyprm_removed_stay_removed (cfg : LazyPRM.Cfg S D) (starts : Array S) :
+    (∀ (r : LazyPRM.Roadmap S D) (s : S), RInv cfg r → Ext r (LazyPRM.addMilestone cfg r s).1) ∧
+      (∀ (r : LazyPRM.Roadmap S D) (start : Nat) (p : List Nat), RInv cfg r →
+        RInv cfg (LazyPRM.constructSolution cfg r start p).1 ∧ Ext r (LazyPRM.constructSolution cfg r start p).1) ∧
+      (∀ (st : LazyPRM.St S D) (s : S) (evs : List (LazyPRM.Event S)), LazyPRM.StInv cfg starts st →
+        Ext st.rm (LazyPRM.iterate cfg st s evs).1.rm) ∧
+      (∀ (fuel : Nat) (st : LazyPRM.St S D) (evs : List (LazyPRM.Event S)), LazyPRM.StInv cfg starts st →
+        Ext st.rm (LazyPRM.loop cfg fuel st evs).1.rm) :=
+  ⟨fun r s h => (LazyPRM.addMilestone_spec cfg r s h).2.1,
+   fun r start p h => ⟨(LazyPRM.constructSolution_spec cfg r start p h).1, (LazyPRM.constructSolution_spec cfg r start p h).2.1⟩,
+   fun st s evs h => (LazyPRM.iterate_spec cfg starts st s evs h).2.1,
+   fun fuel st evs h => (LazyPRM.loop_spec cfg starts fuel st evs h).2⟩
+
+/-- **The lazy re-validation cannot be skipped**: whatever vertex sequence the A* oracle returns, if
+`constructSolution` returns a path then every intermediate vertex of it was answered valid by `isValid` and every edge
+of it by `checkMotion` (now, in the direction of travel, or by an earlier call, in one of the two directions). -/
+theorem lazyprm_construct_validates (cfg : LazyPRM.Cfg S D) (r : LazyPRM.Roadmap S D) (start : Nat) (p : List Nat)
+    (h : RInv cfg r) (path : List S) (hp : (LazyPRM.constructSolution cfg r start p).2 = some path) :
+    path = p.filterMap (fun v => r.states[v]?) ∧
+      (∀ v ∈ (p.drop 1).dropLast, ∀ s, r.states[v]? = some s → cfg.valid s = true) ∧
+      (∀ pq ∈ LazyPRM.pairsOf p, ∀ (a b : S), r.states[pq.1]? = some a → r.states[pq.2]? = some b → EitherWay cfg a b) :=
+  (LazyPRM.constructSolution_spec cfg r start p h).2.2.2 path hp
+
+/-- **LazyPRM reports only real solutions**: for every configuration, start set, termination count and event script:
+a solution status is EXACT_SOLUTION with a path that starts at a filtered start, ends at a filtered goal sample, all of
+whose states were answered valid by `isValid` and all of whose consecutive pairs were answered valid by `checkMotion`
+(one of the two orders); any other status (TIMEOUT, INVALID_START, INVALID_GOAL) adds nothing. -/
+theorem lazyprm_solution_real (cfg : LazyPRM.Cfg S D) (starts : Array S) (ptc : Nat) (evs : List (LazyPRM.Event S)) :
+    ((LazyPRM.solve cfg starts ptc evs).status.toBool = true →
+        ∃ path c, (LazyPRM.solve cfg starts ptc evs).added = some (path, false, c) ∧
+          (LazyPRM.solve cfg starts ptc evs).status = .exactSolution ∧ RealPath cfg starts path) ∧
+      ((LazyPRM.solve cfg starts ptc evs).status.toBool = false → (LazyPRM.solve cfg starts ptc evs).added = none) := by
+  obtain ⟨_, _, h3, h4, h5⟩ := lazyprm_solve_inv cfg starts ptc evs
+  refine ⟨fun hb => ?_, h5⟩
+  obtain ⟨path, c, ha, hs⟩ := h4 hb
+  exact ⟨path, c, ha, hs, h3 path c ha⟩
+
+/-- **Strict form** when the motion validator is symmetric (`checkMotion(a,b) = checkMotion(b,a)`, true of the discrete
+validator on spaces with symmetric interpolation up to rounding): the reported path passes `PathGeometric::check`. -/
+theorem lazyprm_path_checks (cfg : LazyPRM.Cfg S D) (hsym : ∀ a b, cfg.checkMotion a b = cfg.checkMotion b a)
+    (starts : Array S) (ptc : Nat) (evs : List (LazyPRM.Event S)) (path : List S) (c : D)
+    (h : (LazyPRM.solve cfg starts ptc evs).added = some (path, false, c)) :
+    pathCheck cfg.valid cfg.checkMotion path = true := by
+  have hr := (lazyprm_solve_inv cfg starts ptc evs).2.2.1 path c h
+  rw [pathCheck_iff]
+  refine ⟨?_, ?_⟩
+  · intro hlen
+    apply hr.states
+    exact List.getElem_mem hlen
+  · have hch : RRT.Chain (fun a b => cfg.checkMotion a b = true) path := by
+      apply RRT.chain_mono _ _ _ _ hr.edges
+      intro a b hab
+      rcases hab with hab | hab
+      · exact hab
+      · rw [hsym]; exact hab
+    exact RRT.chain_getElem _ _ hch
+
+/-- **Component bookkeeping, partial.**  Proved: `markComponent`, `uniteComponents` and the relabelling after removals
+change nothing but component ids and `componentSize_` (states, liveness, validity flags, edges and the nearest-neighbour
+list are untouched), so no property above depends on the bookkeeping being right.  NOT proved here (full statement):
+"two vertices with the same component id are connected in the current roadmap".  Reading the code: the id classes stay
+sound — after a vertex removal every remaining piece of the start's component contains a former neighbour and is
+relabelled breadth-first with a fresh id, after an edge removal the `pos` side is — but `componentSize_` goes stale:
+removed vertices are never subtracted from their component's size (it only steers which side `uniteComponents`
+relabels).  Soundness of the ids is instead checked at run time on the REAL roadmap by the lock-step harness
+(`componentAudit`: 0 same-id-but-disconnected pairs on every run). -/
+theorem lazyprm_components_sound_partial (r : LazyPRM.Roadmap S D) (a b c : Nat) (l : List Nat) :
+    ((LazyPRM.markComponent r a c).states = r.states ∧ (LazyPRM.markComponent r a c).alive = r.alive ∧
+        (LazyPRM.markComponent r a c).vflag = r.vflag ∧ (LazyPRM.markComponent r a c).edges = r.edges) ∧
+      ((LazyPRM.uniteComponents r a b).states = r.states ∧ (LazyPRM.uniteComponents r a b).alive = r.alive ∧
+        (LazyPRM.uniteComponents r a b).vflag = r.vflag ∧ (LazyPRM.uniteComponents r a b).edges = r.edges) ∧
+      ((LazyPRM.relabelNeighbours c l r).states = r.states ∧ (LazyPRM.relabelNeighbours c l r).alive = r.alive ∧
+        (LazyPRM.relabelNeighbours c l r).vflag = r.vflag ∧ (LazyPRM.relabelNeighbours c l r).edges = r.edges) := by
+  obtain ⟨a1, a2, a3, a4, _⟩ := LazyPRM.markComponent_core r a c
+  obtain ⟨b1, b2, b3, b4, _⟩ := LazyPRM.uniteComponents_core r a b
+  obtain ⟨c1, c2, c3, c4, _⟩ := LazyPRM.relabelNeighbours_core c l r
+  exact ⟨⟨a1, a2, a3, a4⟩, ⟨b1, b2, b3, b4⟩, ⟨c1, c2, c3, c4⟩⟩
+
+end LazyPRM
+
 /-! ### non-vacuity: a toy world on the number line
 
 States are naturals, the range is 2, landing on 5 is invalid, the goal is 6 with threshold 1 (so only 6
@@ -553,5 +708,40 @@ example : (RRTConnect.solve (toyC false 5 10) #[30, 5, 0] 5 true [9]).status = .
     (RRTConnect.solve (toyC false 6 10) #[30, 5] 5 true [9]).status = .invalidStart ∧
     (RRTConnect.solve (toyC false 6 10) #[30, 5, 0] 0 true [9]).status = .timeout ∧
     (RRTConnect.solve (toyC false 6 10) #[30, 5, 0] 0 true [9]).added = none := by decide
+
+/-! ### non-vacuity for LazyPRM: number line, start 0, goal 8, state 5 invalid, motions longer than 4 invalid -/
+
+def toyL : LazyPRM.Cfg Nat Nat where
+  dist a b := if a < b then b - a else a - b
+  cost a b := if a < b then b - a else a - b
+  lt a b := decide (a < b)
+  bound := 10
+  k := 5
+  bounds s := decide (s ≤ 20)
+  valid s := decide (s ≠ 5)
+  checkMotion a b := decide ((if a < b then b - a else a - b) ≤ 4)
+  goalSample _ := 8
+  maxGoalSamples := 1
+  filter _ _ := true
+  pathCost p := p.length
+  satisfied _ := true
+  better a b := decide (a < b)
+  infCost := 1000
+
+/-- the direct edge fails `checkMotion` and is removed, the detour 0-3-8 loses its second edge, vertex 3 (state 5) is
+answered invalid and removed with its edges, finally 0-3-6-8 is validated vertex by vertex and edge by edge -/
+def toyEvents : List (LazyPRM.Event Nat) :=
+  [.draw 3, .astar [0, 1], .astar [0, 2, 1], .draw 5, .astar [0, 3, 1], .draw 6, .astar [0, 2, 4, 1]]
+
+example : (LazyPRM.solve toyL #[30, 0] 10 toyEvents).status = .exactSolution ∧
+    (LazyPRM.solve toyL #[30, 0] 10 toyEvents).added = some ([0, 3, 6, 8], false, 4) ∧
+    (LazyPRM.solve toyL #[30, 0] 10 toyEvents).oracleBad = false ∧
+    (LazyPRM.solve toyL #[30, 0] 10 toyEvents).rm.alive = #[true, true, true, false, true] := by decide
+/-- interrupted before the last sample: TIMEOUT, nothing added, the removed vertex stays removed -/
+example : (LazyPRM.solve toyL #[30, 0] 10 (toyEvents.take 5)).status = .timeout ∧
+    (LazyPRM.solve toyL #[30, 0] 10 (toyEvents.take 5)).added = none ∧
+    (LazyPRM.solve toyL #[30, 0] 10 (toyEvents.take 5)).rm.alive = #[true, true, true, false] := by decide
+/-- an oracle answer that is not a walk in the roadmap is rejected by the model -/
+example : (LazyPRM.solve toyL #[30, 0] 10 [.draw 3, .astar [0, 7, 1]]).oracleBad = true := by decide
 
 end OmplModel.Props.C01
